@@ -91,6 +91,11 @@ def units(tier, seed):
     for k2, eng in enumerate([e for e in shapes_h2() if e[1] in ("SEA", "DE", "SHADE", "SEAX", "GA", "DEd", "MWEA")][:: (1 if tier == "thorough" else 3)]):
         descs.append(dict(engines=list(eng), gens=1 + k2 % 2, box=boxes[k2 % 3], obj=objs[k2 % 4], maximize=bool(k2 % 2), Mh=3, seed=s, levelshift=True, use_cache=True,
                           sprout={"kind": ("simple", "nbc")[k2 % 2], "L": 2}))
+    # objective undefined (NaN) on part of the box: a stored NaN must be the value of that very genome, and never turn into +-inf
+    for k3, eng in enumerate([e for e in shapes_h1() + shapes_h2() if not any(v.startswith("CMA") or v == "LOC" for v in e)][:: (1 if tier == "thorough" else 2)]):
+        for mx in (False, True):
+            descs.append(dict(engines=list(eng), gens=2, box=boxes[k3 % 2], obj=("nanhole", "nanhalf")[k3 % 2], maximize=mx, Mh=3, seed=s + k3 % 3, kelites=1 + k3 % 2,
+                              sprout={"kind": ("simple", "nbc")[k3 % 2], "L": 2}))
     us = [{"kind": "run", "descs": c} for c in chunks(descs, 25)]
     rshapes = rep_shapes() if tier == "thorough" else rep_shapes()[14:]
     for k, eng in enumerate(rshapes):
